@@ -270,7 +270,7 @@ def do_digest(ck, exe, mods, nshards, ncases, nops, stats):
                 stats["digest_cases"] += 1
                 stats["digest_cases_with_invloop_fx"] += "invloopfx=1" in l
                 stats["digest_interp_" + re.search(r"interp=(\d)", l).group(1)] += 1
-            elif l.startswith("inv ") and cur:
+            elif l.startswith("inv ") and cur and len(l.split(" ")) == 20:
                 inv_lines.append((cur, l))
             elif l.startswith("o_fail ") and cur:
                 f = l.split(" ", 3)
